@@ -186,6 +186,37 @@ def rule_r1(prog, res):
                             'the built document is not stored into the cache '
                             'after build_interface_document inside the '
                             'locked region')
+            # the builder's own request takes the document it built, not a
+            # second read of the cache field: the cache has writers that do
+            # not hold the lock
+            unlocked = [a for a in walk_no_defs(f.node)
+                        if isinstance(a, ast.Assign) and any(
+                            unparse(t).endswith('._wsdl') for t in a.targets)
+                        and not any(a in r[1] for r in regions)]
+            for s in body:
+                for a in ast.walk(s):
+                    if isinstance(a, ast.Assign) and a.lineno > call.lineno \
+                            and isinstance(a.value, ast.Attribute) and \
+                            a.value.attr == '_wsdl' and not any(
+                                unparse(t).endswith('._wsdl')
+                                for t in a.targets):
+                        w2 = '%s:%d' % (f.module.relpath, a.lineno)
+                        res.ob('R1', w2, '%s: %s after the build while %d '
+                               'store(s) of the cache run without the lock'
+                               % (f.qualname, unparse(a)[:50], len(unlocked)),
+                               'VIOLATED' if unlocked else 'ok')
+                        if unlocked:
+                            res.finding('R1', '%s|built-document-read-back' %
+                                        f.qualname, w2, 'after the locked '
+                                        'build the request reads the shared '
+                                        'cache again (%s) instead of keeping '
+                                        'the document it built; the store at '
+                                        'line %d writes the cache without the '
+                                        'lock and can put a stale None there '
+                                        'in between: the builder then answers '
+                                        'without a document' % (
+                                            unparse(a)[:50],
+                                            unlocked[0].lineno))
     res.floor('R1', 'lazy build_interface_document call sites', n_build, 1)
     # acquire/release pairing: every acquire of the lock has its release in a
     # finally of the try that contains (or follows) it
@@ -1070,6 +1101,16 @@ _P = 'spyne/protocol/_base.py'
 _M = 'spyne/util/memo.py'
 
 MUTANTS = [
+    Mutant('built-wsdl-read-back-from-cache', 'R1', 'fire',
+           'spyne/server/wsgi.py',
+           in_func('WsgiApplication.handle_wsdl_request',
+                   "                    ctx.transport.wsdl = self._wsdl = \\\n"
+                   "                                        self.doc.wsdl11."
+                   "get_interface_document()\n",
+                   "                    self._wsdl = self.doc.wsdl11."
+                   "get_interface_document()\n"
+                   "                    ctx.transport.wsdl = self._wsdl\n"),
+           'built-document-read-back'),
     Mutant('memoizer-falls-off-after-lock', 'R10', 'fire', _M,
            in_func('memoize_ignore_none.__call__',
                    "                    return value\n"
